@@ -4,6 +4,7 @@
 // the interrupted machine is about to execute a main-program instruction its registers (all
 // program-visible ones and the two-way banks), live stack and, at the end, all data memory must equal
 // the undisturbed run's at the same main-program step.
+#include <map>
 #include "../core/box.h"
 #include "../guest/firmware.h"
 
@@ -32,9 +33,20 @@ const u16 kAlu1[] = {op::INC_A0, op::INC_A1, op::DEC_A0, op::DEC_A1, op::CLR_A0,
 const u16 kAluImm[] = {0x86C0, 0x8EC0, 0x80C0, 0x82C0, 0x8CC0, 0x87C0};
 const u16 kMovImmRegs[] = {op::R0, op::R1, op::R2, op::R3, op::R4, op::R5, op::R7, op::Y0, op::A0, op::A1, op::A0L, op::A1L, op::A0H, op::A1H, op::SV};
 
+// pairs whose pop restores the whole machine state (accumulator parts, and st0/st1 which carry four extension bits of a0/a1,
+// are left out: popping those rewrites the rest of the accumulator by sign extension)
+const PushPop kWholePairs[] = {
+    {op::PUSH_R0, op::POP_R0},     {op::PUSH_R1, op::POP_R1},     {op::PUSH_R7, op::POP_R7},     {op::PUSH_SV, op::POP_SV},
+    {op::PUSH_X0, op::POP_X0},     {op::PUSH_X1, op::POP_X1},     {op::PUSH_Y0, op::POP_Y0},     {op::PUSH_Y1, op::POP_Y1},
+    {op::PUSH_REPC, op::POP_REPC}, {op::PUSH_LC, op::POP_LC},     {op::PUSH_STT0, op::POP_STT0},
+    {op::PUSH_STT1, op::POP_STT1}, {op::PUSH_MOD0, op::POP_MOD0}, {op::PUSH_MOD1, op::POP_MOD1}, {op::PUSH_MOD2, op::POP_MOD2},
+    {op::PUSH_CFGI, op::POP_CFGI}, {op::PUSH_CFGJ, op::POP_CFGJ}, {op::PUSH_AR0, op::POP_AR0},   {op::PUSH_ARP0, op::POP_ARP0},
+};
+
 struct Builder {
     Asm a;
     std::vector<u32> sub_addr;
+    std::vector<std::pair<u32, u32>> ident; // [start, end): code whose net effect on every observed register must be nil
     void simple(s64 k, s64 x, s64 y) { // a gadget that changes only data registers / flags / data cells
         switch (k % 7) {
         case 0:
@@ -113,14 +125,50 @@ struct Builder {
             }
             break;
         case 9: // bank exchange applied twice
-            if (x & 1) {
+            switch (x % 7) {
+            case 0:
                 a.w(op::BANKR);
                 simple(0, y, 0);
                 a.w(op::BANKR);
-            } else {
+                break;
+            case 1:
                 a.w(0x4B88); // banke r0
                 a.mov_imm(op::R0, (u16)y);
                 a.w(0x4B88);
+                break;
+            case 2:
+            case 3: { // banke with any of the 64 flag sets, applied twice with nothing in between: identity
+                u32 st = a.at;
+                a.w((u16)(0x4B80 | (y & 0x3F)));
+                a.w((u16)(0x4B80 | (y & 0x3F)));
+                ident.push_back({st, a.at});
+                break;
+            }
+            case 4: { // every bankr form applied twice: identity
+                const u16 forms[4] = {0x8CDF, (u16)(0x8CDC | (y & 1)), (u16)(0x8CD0 | (y & 1) << 2 | ((y >> 1) & 3)), (u16)(0x8CD8 | ((y >> 1) & 3))};
+                u32 st = a.at;
+                a.w(forms[(y >> 3) & 3]);
+                a.w(forms[(y >> 3) & 3]);
+                ident.push_back({st, a.at});
+                break;
+            }
+            case 5: { // explicit context store + restore (one level of shadow only: no interrupt may come in between)
+                a.w(op::DINT);
+                u32 st = a.at;
+                a.w(op::CNTX_S);
+                a.w(op::CNTX_R);
+                ident.push_back({st, a.at});
+                a.w(op::EINT);
+                break;
+            }
+            default: { // push / pop of a register or status / configuration word
+                const PushPop& p = kWholePairs[y % (sizeof kWholePairs / sizeof kWholePairs[0])];
+                u32 st = a.at;
+                a.w(p.push);
+                a.w(p.pop);
+                ident.push_back({st, a.at});
+                break;
+            }
             }
             break;
         case 10: // single-instruction repeat
@@ -180,7 +228,7 @@ public:
         return {2, 0};
     }
     std::vector<std::pair<std::string, s64>> simplest_knobs() const override {
-        return {{"variant", 2}, {"line", 0}, {"cpc", 1}, {"ccnta", 1}, {"crep", 1}};
+        return {{"variant", 2}, {"line", 0}, {"cpc", 1}, {"ccnta", 1}, {"crep", 1}, {"stp16", 0}, {"retcond", 0}};
     }
 
     Plan generate(u64 seed, const Tier& tier) override {
@@ -193,6 +241,8 @@ public:
         p.set_knob("crep", (s64)r.below(2));
         p.set_knob("clob", (s64)(r.next() & 0xFFFF));
         p.set_knob("regseed", (s64)(r.next() & 0xFFFFFFF)); // initial values of the data registers (set through the register accessor)
+        p.set_knob("stp16", (s64)r.chance(1, 2));           // banke also exchanges the 16-bit steps
+        p.set_knob("retcond", (s64)r.below(8));             // 0,1: unconditional return; else a conditional return followed by its complement
         int nsub = (int)r.below(4);
         for (int i = 0; i < nsub; ++i)
             p.add("sub", {(s64)r.below(7), (s64)(r.next() & 0xFFFF), (s64)(r.next() & 0xFFFF), (s64)r.below(4)});
@@ -212,6 +262,7 @@ public:
         Box& b;
         u32 end_addr = 0;
         u32 hvec = 0;
+        std::vector<std::pair<u32, u32>> ident;
         Machine() : boxp(BoxPool::take(false)), b(*boxp) {}
     };
 
@@ -269,14 +320,27 @@ public:
                 bl.a.mov_imm_repc((u16)(clob ^ 0x5555));
             bl.a.w2(0x8CC0, (u16)(clob + 1));
         };
+        // return from interrupt, either unconditional or as a conditional return followed by the complementary one: exactly one
+        // of the two fires, whichever way the handler's own flags fall (the conditions are evaluated on the HANDLER's flags)
+        int rc = (int)plan.knob("retcond", 0);
+        auto ret_from_interrupt = [&](u16 base) {
+            static const u16 pairs[3][2] = {{1, 2}, {3, 6}, {4, 5}}; // eq/neq, gt/le, ge/lt
+            if (rc < 2) {
+                bl.a.w(base);
+            } else {
+                const u16* pr = pairs[(rc - 2) / 2];
+                bl.a.w((u16)(base | pr[rc & 1]));
+                bl.a.w((u16)(base | pr[(rc & 1) ^ 1]));
+            }
+        };
         if (variant == 0) {
             clobber_banked();
-            bl.a.w(op::RETIC);
+            ret_from_interrupt(op::RETIC);
         } else if (variant == 1) {
             bl.a.w(op::CNTX_S);
             clobber_banked();
             bl.a.w(op::CNTX_R);
-            bl.a.w(op::RETI);
+            ret_from_interrupt(op::RETI);
         } else {
             bl.a.w(op::PUSH_STT0).w(op::PUSH_STT1).w(op::PUSH_R0).w(op::PUSH_R1).w(op::PUSH_A0E).w(op::PUSHA_A0);
             bl.a.mov_imm(op::R0, (u16)(clob & 1));
@@ -286,13 +350,14 @@ public:
             bl.a.store_imm(MMIO + 0x202, 0xFFFF); // acknowledge; clobbers r0, r1
             bl.a.w(op::DEC_A0);
             bl.a.w(op::POPA_A0).w(op::POP_A0E).w(op::POP_R1).w(op::POP_R0).w(op::POP_STT1).w(op::POP_STT0);
-            bl.a.w(op::RETI);
+            ret_from_interrupt(op::RETI);
         }
         // main
         bl.a.org(0).br(P_MAIN);
         bl.a.org(P_MAIN);
         bl.a.mov_imm(op::SP, (u16)STACK_TOP);
         bl.a.mov_imm_sttmod(op::MOD0, 0x0003); // saturation disabled, as the property requires
+        bl.a.mov_imm_sttmod(op::MOD1, (u16)(0x2000 | (plan.knob("stp16", 0) ? 0x1000 : 0))); // cmd as after reset; stp16 by knob
         u16 mod3 = (u16)(0x80 | (line < 3 ? (0x100 << line) : 0x800) | (ccnta ? 1 << 13 : 0) | (cpc ? 1 << 14 : 0) | (crep ? 1 << 15 : 0));
         if (variant == 0 && line < 3)
             mod3 |= (u16)(2 << line);
@@ -306,6 +371,7 @@ public:
             bl.gadget(s);
         }
         m.end_addr = bl.a.at;
+        m.ident = bl.ident;
         bl.a.idle();
         b.load(bl.a.words);
         {
@@ -336,6 +402,23 @@ public:
             r.sv = (u16)g.next();
             r.mixp = (u16)g.next();
             r.repc = (u16)(g.next() & 0xFF);
+            // step / modulo configuration and the exchange banks of banke (no gadget steps an address register by them)
+            r.stepi = (u16)(g.next() & 0x7F);
+            r.stepj = (u16)(g.next() & 0x7F);
+            r.stepib = (u16)(g.next() & 0x7F);
+            r.stepjb = (u16)(g.next() & 0x7F);
+            r.modi = (u16)(g.next() & 0x1FF);
+            r.modj = (u16)(g.next() & 0x1FF);
+            r.modib = (u16)(g.next() & 0x1FF);
+            r.modjb = (u16)(g.next() & 0x1FF);
+            r.stepi0 = (u16)g.next();
+            r.stepj0 = (u16)g.next();
+            r.stepi0b = (u16)g.next();
+            r.stepj0b = (u16)g.next();
+            r.r0b = (u16)g.next();
+            r.r1b = (u16)g.next();
+            r.r4b = (u16)g.next();
+            r.r7b = (u16)g.next();
         }
         // ICU: software irq 5 routed to the chosen line
         auto& t = *b.t;
@@ -379,9 +462,38 @@ public:
                 for (u32 a = sp; a < STACK_TOP; ++a)
                     v.push_back(b.peek_data(a));
         };
+        std::map<u32, u32> ident_end;
+        for (auto& pr : B.ident)
+            ident_end[pr.first] = pr.second;
+        long ident_open = -1; // index into ref of the state at the start of the round trip being executed
+        u32 ident_until = 0;
         for (u64 k = 0; k < cap; ++k) {
             ObsValues v;
             observe_regs(B.b.regs(), v, true);
+            {
+                u32 pc = B.b.regs().pc;
+                if (ident_open >= 0 && pc == ident_until) {
+                    const ObsValues& was = ref[(std::size_t)ident_open];
+                    out.probes["round_trips_judged"]++;
+                    for (std::size_t i = 0; i < v.size() && out.ok(); ++i) {
+                        if (v[i] == was[i] || excluded(names[i]) || names[i] == "pc")
+                            continue;
+                        u16 w0 = B.b.peek_prog(ident_until - 2), w1 = B.b.peek_prog(ident_until - 1);
+                        out.violate(names[i].rfind("shadow.", 0) == 0 ? "C08.bank" : "C08.round-trip",
+                                    fmt("after the round trip 0x%04x 0x%04x at pc 0x%x: %s = 0x%llx, before it 0x%llx (stp16 %lld)", w0, w1,
+                                        ident_until - 2, names[i].c_str(), (unsigned long long)v[i], (unsigned long long)was[i],
+                                        (long long)plan.knob("stp16", 0)));
+                    }
+                    ident_open = -1;
+                }
+                auto it = ident_end.find(pc);
+                if (it != ident_end.end() && ident_open < 0) {
+                    ident_open = (long)ref.size();
+                    ident_until = it->second;
+                }
+            }
+            if (!out.ok())
+                break;
             ref.push_back(std::move(v));
             std::vector<u16> st;
             snap_stack(B.b, st);
@@ -391,6 +503,10 @@ public:
             dead = B.b.run(1);
             if (!dead.empty())
                 break;
+        }
+        if (!out.ok()) {
+            out.hash = log.h;
+            return out;
         }
         if (!dead.empty() || ref.size() >= cap) {
             out.aborted = !dead.empty();
